@@ -1,15 +1,17 @@
 ----------------------------- MODULE Trace_Store -----------------------------
 (* Trace validation of PandasStore.save / compute_aggregate / cf_safe_name. *)
-(*   save    [table, config, names, opts, frame, exc, rollup]               *)
+(*   save    [table, config, names, opts, frame, exc, rollup, first]        *)
+(*   agg     [exc]             compute_aggregate on the same store object   *)
+(* Events of one store object follow each other; "first" marks a new one.   *)
 (*   cfsafe  [raw (chars), out (chars), exc]                                *)
 EXTENDS Store, Json, IOUtils, TLCExt
 
 TraceLog == ndJsonDeserialize(IOEnv.TRACE_FILE)
-VARIABLE l
+VARIABLES l, aggd, seen      \* aggd: compute_aggregate was called on this store; seen: its earlier saves
 Clause(e, name, ok) == IF ok THEN TRUE ELSE PrintT(<<"REJECT", e.id, name>>)
-TraceInit == l = 1
+TraceInit == l = 1 /\ aggd = FALSE /\ seen = {}
 
-SaveE(e) ==
+SaveE(e, ag, sn) ==
     LET ok == FrameOK(e.frame, e.table, e.config, e.names, e.opts) IN
     /\ Clause(e, "c19_total", e.exc = "")
     /\ Clause(e, "c19_rows", e.exc = "" => ok.rows)
@@ -18,15 +20,26 @@ SaveE(e) ==
     /\ Clause(e, "c19_results", e.exc = "" => ok.results)
     /\ Clause(e, "c19_axes", e.exc = "" => ok.axes)
     /\ Clause(e, "c19_data", e.exc = "" => ok.data)
-    /\ Clause(e, "c19_rollup", (e.exc = "" /\ e.rollup.asked) =>
-                 LET want == RollupOf(e.table, e.config, e.names) IN
-                 want # <<>> => (e.rollup.found /\ e.rollup.vals = want))
+    /\ Clause(e, "c19_rollup", (e.exc = "" /\ NoFilters(e.opts)) =>
+                 RollupOK(e.rollup, e.table, e.config, e.names, ag))
+    \* the same options on the same store in the same state give the same frame (save is a pure observation)
+    /\ Clause(e, "c19_again", e.exc = "" => \A s \in sn : (s.opts = e.opts /\ s.aggd = ag) =>
+                                                          (s.frame = e.frame /\ s.rollup = e.rollup))
 
 Step ==
     /\ l <= Len(TraceLog)
     /\ LET e == TraceLog[l] IN
-       /\ CASE e.ev = "save"   -> SaveE(e)
+       /\ CASE e.ev = "save"   -> LET ag == IF e.first THEN FALSE ELSE aggd
+                                       sn == IF e.first THEN {} ELSE seen IN
+                                   /\ SaveE(e, ag, sn)
+                                   /\ aggd' = ag
+                                   /\ seen' = IF e.exc = "" THEN sn \cup {[opts |-> e.opts, aggd |-> ag, frame |-> e.frame,
+                                                                             rollup |-> e.rollup]} ELSE sn
+            [] e.ev = "agg"    -> /\ Clause(e, "c19_total", e.exc = "")
+                                  /\ aggd' = ((IF e.first THEN FALSE ELSE aggd) \/ (e.exc = ""))
+                                  /\ seen' = IF e.first THEN {} ELSE seen
             [] e.ev = "cfsafe" -> /\ Clause(e, "c19_cfsafe", e.exc = "" /\ SafeOf(e.out, e.raw))
+                                  /\ UNCHANGED <<aggd, seen>>
        /\ IF l = Len(TraceLog) THEN PrintT(<<"DONE", l>>) ELSE TRUE
     /\ l' = l + 1
 =============================================================================
